@@ -108,6 +108,8 @@ def atoms_all():
           "NOT (COALESCE(x, NULL) IS NOT NULL)", "x BETWEEN SYMMETRIC 2 AND 1", "x BETWEEN 2 AND 1 OR x BETWEEN SYMMETRIC 2 AND 1",
           "IF(x > 1, y, 0) = 1 OR IF(x > 1, y, 1) = 1", "y < IF(x IS NULL, 2, 0) AND y < IF(x IS NULL, 2, 3)",
           "CASE WHEN x > 1 THEN TRUE ELSE FALSE END", "(CASE WHEN x > 1 THEN TRUE ELSE FALSE END) IS NULL", "NOT IF(x > 1, TRUE, FALSE)"]
+    # chained comparisons (a comparison of a comparison's truth value): not associative
+    A += ["x < 2 < 1", "x = 2 = 2", "(x < 2) < 1", "x > y > 0", "x = y = TRUE", "b = (x = 1)", "(x = 1) = (y = 1)", "x <> 1 <> 0"]
     for c2 in (1, 2):
         A += [f"x + 1 {op} {c2}" for op in OPS]
     for op in OPS:
